@@ -4,7 +4,7 @@
 Require Extraction.
 Require Import ExtrOcamlBasic.
 From Coq Require Import ZArith List.
-From LasV Require Import Lib.Base Lib.Layout Gen.GenFormatBits Gen.GenC14 Model.Las Model.Laz Model.LazSelect.
+From LasV Require Import Lib.Base Lib.Layout Gen.GenFormatBits Gen.GenC14 Model.Las Model.Laz Model.LazSelect Model.LazForm.
 Extraction Language OCaml.
 Extraction "../ocaml/c14/model.ml"
   Z.add Z.mul Z.sub Z.div_eucl Z.compare Z.of_nat Z.to_nat
@@ -14,4 +14,5 @@ Extraction "../ocaml/c14/model.ml"
   hc lzd enc_header dec_header with_stats stats0 std_size file_of read_file
   laz_file_of lz_session laz_source read_laz read_laz_ns laz_pstep las_pstep spec_pstep prun ops_ok lz_arun
   mask_record keep_byte sel_to_lazrs lz_select or_all selection_all selection_base selection_members selection_defaults
-  selection_all_to_lazrs lz_layers has.
+  selection_all_to_lazrs lz_layers has
+  gen_reader_backends gen_writer_backends gen_appender_backends select_tried writer_variant form_names_a_backend form_names_serial.
